@@ -125,6 +125,8 @@ pub struct CaseSpec {
     /// write failpoint: number of chunk writes that succeed before one fails
     pub write_budget: Option<u64>,
     pub max_events: usize,
+    /// upload target already exists with this many bytes of unrelated content (0 = no file)
+    pub pre_existing: u64,
 }
 
 impl CaseSpec {
@@ -842,6 +844,8 @@ pub fn run_case(spec: &CaseSpec, dir: &std::path::Path, uniq: u64) -> Outcome {
     let _ = std::fs::remove_file(&path);
     if spec.role == Role::Send {
         std::fs::write(&path, content(spec.seed, 0, spec.len)).expect("write source file");
+    } else if spec.pre_existing > 0 {
+        std::fs::write(&path, vec![0xEEu8; spec.pre_existing as usize]).expect("write pre-existing target");
     }
     let core = Arc::new(Mutex::new(Core::new(spec.clone(), path.clone())));
     let mut sock: Box<SimSocket> = Box::new(SimSocket { core: core.clone() });
